@@ -2,6 +2,7 @@ package main
 
 import (
 	"fmt"
+	"os"
 	"sort"
 	"strings"
 
@@ -77,6 +78,15 @@ func refTok(r bstream.BlockRef) string {
 		return "nil:0"
 	}
 	return fmt.Sprintf("%s:%d", tok(r.ID()), r.Num())
+}
+
+// dbgTwin prints both traces of a twin run (VERIF_DEBUG_TWIN=1)
+func dbgTwin(a, b []string) {
+	if os.Getenv("VERIF_DEBUG_TWIN") == "" {
+		return
+	}
+	fmt.Fprintln(os.Stderr, "BASE:\n "+strings.Join(a, "\n "))
+	fmt.Fprintln(os.Stderr, "TWIN:\n "+strings.Join(b, "\n "))
 }
 
 func evLine(blk *pbbstream.Block, obj interface{}) string {
@@ -220,7 +230,90 @@ func (r *fkRunner) queries() {
 	}))
 }
 
-func runForkableCase(o *Out, c fkCfg, ops []fkOp, queries bool) {
+// flatTrace runs ops on a fresh Forkable and returns the flattened event lines (no output).
+func flatTrace(c fkCfg, ops []fkOp) []string {
+	var lines []string
+	calls, failAt := 0, -1
+	h := bstream.HandlerFunc(func(blk *pbbstream.Block, obj interface{}) error {
+		lines = append(lines, evLine(blk, obj))
+		k := calls
+		calls++
+		if failAt >= 0 && k == failAt {
+			return fmt.Errorf("injected handler failure")
+		}
+		return nil
+	})
+	p := forkable.New(h, c.options()...)
+	for _, op := range ops {
+		calls, failAt = 0, op.fail
+		ret := safely(func() string {
+			if err := p.ProcessBlock(op.b.pb(), nil); err != nil {
+				return "err"
+			}
+			return "ok"
+		})
+		if ret != "ok" {
+			lines = append(lines, "ret "+ret)
+			break
+		}
+	}
+	return lines
+}
+
+func sameLines(a, b []string) bool {
+	if len(a) != len(b) {
+		return false
+	}
+	for i := range a {
+		if a[i] != b[i] {
+			return false
+		}
+	}
+	return true
+}
+
+// runTwin re-runs the history under another retention value, or with re-fed / below-LIB noise inserted,
+// and compares the implementation's own traces with each other (C03: outputs do not depend on them).
+func runTwin(o *Out, c fkCfg, ops []fkOp, spec []string) {
+	base := flatTrace(c, ops)
+	switch spec[0] {
+	case "kept":
+		c2 := c
+		fmt.Sscan(spec[1], &c2.kept)
+		o.Op("twin kept %d", c2.kept)
+		t2 := flatTrace(c2, ops)
+		if sameLines(base, t2) {
+			o.Impl("twin same")
+		} else {
+			dbgTwin(base, t2)
+			o.Impl("twin DIFF")
+		}
+	case "noise":
+		var seed uint64
+		fmt.Sscan(spec[1], &seed)
+		r := NewRng(seed)
+		var noisy []fkOp
+		for i, op := range ops {
+			noisy = append(noisy, op)
+			if i > 0 && r.Intn(3) == 0 {
+				re := ops[r.Intn(i+1)]
+				re.fail = -1
+				noisy = append(noisy, re) // a block fed before: duplicate, possibly below the LIB by now
+			}
+		}
+		o.Op("twin noise %d", seed)
+		// cursors' head of later events is the incoming block, which is unchanged; re-feeds deliver nothing
+		t2 := flatTrace(c, noisy)
+		if sameLines(base, t2) {
+			o.Impl("twin same")
+		} else {
+			dbgTwin(base, t2)
+			o.Impl("twin DIFF")
+		}
+	}
+}
+
+func runForkableCase(o *Out, c fkCfg, ops []fkOp, queries bool, twins ...[]string) {
 	old := bstream.GetProtocolFirstStreamableBlock
 	bstream.GetProtocolFirstStreamableBlock = c.fsb
 	defer func() { bstream.GetProtocolFirstStreamableBlock = old }()
@@ -232,6 +325,9 @@ func runForkableCase(o *Out, c fkCfg, ops []fkOp, queries bool) {
 	r := newFkRunner(o, c)
 	for _, op := range ops {
 		r.feed(op, queries)
+	}
+	for _, tw := range twins {
+		runTwin(o, c, ops, tw)
 	}
 	o.End()
 }
@@ -245,6 +341,8 @@ func genForkableCase(r *Rng, o *Out) (fkCfg, []fkOp, *Tree) {
 	if r.Intn(10) == 0 {
 		to.RootParent = "" // a genesis-like root whose parent id is empty
 	}
+	fsbIsRoot := r.Intn(8) == 0
+	to.RootOwnLib = fsbIsRoot
 	t := genTree(r, to)
 	c := fkCfg{kept: []int{0, 0, 1, 2, 5, 100}[r.Intn(6)], allTrig: r.Intn(4) == 0, filter: 51, fsb: 0}
 	switch r.Intn(8) {
@@ -268,14 +366,15 @@ func genForkableCase(r *Rng, o *Out) (fkCfg, []fkOp, *Tree) {
 	case 5:
 		c.root, c.hold = "none", true
 		feedRoot = true
-		if r.Bool() {
-			c.fsb = t.Root.Num // the root is the first streamable block
-		}
 		o.Stat("forkable.cfg.discovery_hold", 1)
 	default:
 		c.root, c.hold = "none", true
 		feedRoot = r.Bool()
 		o.Stat("forkable.cfg.discovery_hold", 1)
+	}
+	if fsbIsRoot {
+		c.fsb = t.Root.Num // the root is the first streamable block of the chain
+		o.Stat("forkable.cfg.root_is_first_streamable", 1)
 	}
 	blocks := t.Blocks
 	pol := r.Intn(4)
@@ -307,7 +406,22 @@ func genForkableCase(r *Rng, o *Out) (fkCfg, []fkOp, *Tree) {
 func suiteForkable(o *Out, r *Rng, n int, tier string) {
 	for i := 0; i < n; i++ {
 		c, ops, _ := genForkableCase(r, o)
-		runForkableCase(o, c, ops, true)
+		var twins [][]string
+		hasFail := false
+		for _, op := range ops {
+			if op.fail >= 0 {
+				hasFail = true
+			}
+		}
+		if !hasFail && r.Intn(2) == 0 {
+			k2 := []int{0, 1, 3, 50}[r.Intn(4)]
+			if k2 == c.kept {
+				k2 = c.kept + 7
+			}
+			twins = append(twins, []string{"kept", fmt.Sprint(k2)}, []string{"noise", fmt.Sprint(r.U64() % 1000000)})
+			o.Stat("forkable.twins", 1)
+		}
+		runForkableCase(o, c, ops, true, twins...)
 	}
 }
 
@@ -349,11 +463,12 @@ func replayForkable(o *Out, lines []string) {
 	var c fkCfg
 	var q, open bool
 	var ops []fkOp
+	var twins [][]string
 	flush := func() {
 		if open {
-			runForkableCase(o, c, ops, q)
+			runForkableCase(o, c, ops, q, twins...)
 		}
-		ops, open = nil, false
+		ops, twins, open = nil, nil, false
 	}
 	for _, l := range lines {
 		ws := strings.Fields(l)
@@ -368,6 +483,9 @@ func replayForkable(o *Out, lines []string) {
 		case "op":
 			if ws[1] == "blk" {
 				ops = append(ops, parseBlkOp(ws))
+			}
+			if ws[1] == "twin" && len(ws) >= 4 {
+				twins = append(twins, ws[2:4])
 			}
 		case "end":
 			flush()
